@@ -251,6 +251,9 @@ func fmtBinary(in string) (string, string) {
 		cmd := exec.CommandContext(ctx, filepath.Join(os.Getenv("VERIF_BUILD"), "spok"), "--fmt")
 		cmd.Dir = proj
 		cmd.Env = []string{"HOME=" + home, "PATH=/usr/bin:/bin", "NO_COLOR=1"}
+		if d := os.Getenv("GOCOVERDIR"); d != "" {
+			cmd.Env = append(cmd.Env, "GOCOVERDIR="+d) // a -cover build of the binary (coverage report of the evidence)
+		}
 		return cmd.Run() == nil
 	}
 	if !run() {
